@@ -115,7 +115,16 @@ static int connectionEncoding(MPT_STRUCT(connection) *con, MPT_INTERFACE(convert
 	}
 	/* clear existing coding state contexts */
 	if (srm->_rd._dec) {
+		/* read queue content is retained, keep positions of processed data */
+		MPT_STRUCT(decode_state) pos = srm->_rd._state;
 		srm->_rd._dec(&srm->_rd._state, 0, 0);
+		pos._ctx = srm->_rd._state._ctx;
+		/* no message pending, all processed data is consumed */
+		if (pos.data.msg < 0) {
+			pos.data.pos = pos.curr;
+			pos.data.len = 0;
+		}
+		srm->_rd._state = pos;
 	}
 	if (srm->_wd._enc) {
 		srm->_wd._enc(&srm->_wd._state, 0, 0);
